@@ -106,7 +106,10 @@ def graphs(draw, max_nodes=8, allow_cycles=True, allow_obj=True):
 def cases(draw, max_nodes):
     nodes = draw(graphs(max_nodes))
     ds, le = draw(gen.options)
-    return {'nodes': nodes, 'root': len(nodes) - 1, 'ds': ds, 'le': le, 'cycles': draw(st.sampled_from(['check', 'check', 'ignore']))}
+    case = {'nodes': nodes, 'root': len(nodes) - 1, 'ds': ds, 'le': le, 'cycles': draw(st.sampled_from(['check', 'check', 'ignore']))}
+    if ds == 'none' and draw(st.booleans()):
+        case['api_none'] = True         # BuildOptions(allow_key_edits=False), auto_match_keys left at its default
+    return case
 
 
 def jobs(tier):
@@ -363,7 +366,7 @@ def check(case):
     cyclic, shared, kinds = graph_facts(nodes, root)
     ds, le = case.get('ds', 'auto'), case.get('le', 'on')
     ignore = case.get('cycles') == 'ignore'
-    opts = common.build_options(ds, le, check_for_cyces=True, ignore_cycles=ignore)
+    opts = common.build_options(ds, le, api_none=bool(case.get('api_none')), check_for_cyces=True, ignore_cycles=ignore)
     has_obj = bool(kinds & {'obj', 'oset'})
     has_set = bool(kinds & {'set', 'frozenset', 'oset'})
     entries = [('pydiff', lambda: pydiff.build_tree(o, opts))]
